@@ -165,7 +165,7 @@ func (p *HandlerMining) onMiningSubmit(ctx context.Context, msgTyped *m.MiningSu
 		if res.(*m.MiningResult).IsError() {
 			if weAccepted {
 				p.proxy.source.GetStats().IncWeAcceptedTheyRejected()
-				dest.GetStats().IncWeAcceptedTheyAccepted()
+				dest.GetStats().IncWeAcceptedTheyRejected()
 				p.proxy.logWarnf("we accepted share, they rejected with err %s", res.(*m.MiningResult).GetError())
 			} else {
 				p.proxy.logWarnf("we rejected share, and they rejected with err %s", res.(*m.MiningResult).GetError())
